@@ -281,6 +281,11 @@ def run_case(case):
                 sample = {"origin": "fixture", "file": base}
         except K.Rejected:
             return K.result("held", cell="rejected", nontrivial=False, obs={"rejected_by_writer": 1})
+        except Exception as e:
+            # producing the archive failed: whatever that is (C01/C07 judge write sessions), there is no listing to judge here
+            if K.rooted_in_rejection(e):
+                return K.result("held", cell="rejected", nontrivial=False, obs={"rejected_by_writer": 1})
+            return K.result("held", cell="skip-write-raises", nontrivial=False, obs={"skipped_write_raises": 1}, sample={"skip": pz.exc_sig(e)})
         st = _check_archive(path, pw, supplied, viol, obs, d, case["kind"])
         # a password supplied for an unencrypted archive: needs_password must still be true
         if st == "ok" and supplied is None and case["kind"] in ("py", "fixture") and not viol:
